@@ -2,6 +2,7 @@ package main
 
 import (
 	"fmt"
+	"go/types"
 	"strings"
 
 	"golang.org/x/tools/go/ssa"
@@ -94,6 +95,25 @@ func runC12(c *Ctx) {
 	}
 	c.Assumption("elements of repeated message fields and the payload of a set oneof wrapper are non-nil (wire format)")
 	c.Assumption("hand-written methods are not called on nil receivers; parameters that are not themselves loaded from a message are non-nil")
+	// ---- maps written on behalf of concurrent RPCs: an unsynchronised Go map access is a fatal error
+	// ("concurrent map writes") that no recover can stop - it takes the whole process down
+	c.Rule("C12.shared-maps", "the server-side statistics maps (subscribe.stats.types / targets / clients), which every concurrent Subscribe RPC reads and writes when statistics are enabled, are accessed only with stats.mu held: an unsynchronised map access is a fatal runtime error that crashes the process whatever the message was")
+	{
+		fMu := c.P.Field("subscribe", "stats", "mu")
+		g := map[*types.Var]*types.Var{}
+		for _, n := range []string{"types", "targets", "clients"} {
+			if f := c.P.Field("subscribe", "stats", n); f != nil && fMu != nil {
+				g[f] = fMu
+			} else {
+				c.Unresolved("C12.shared-maps", "subscribe.stats."+n+" / stats.mu")
+			}
+		}
+		if len(g) == 3 {
+			la := NewLockAudit(c, "subscribe", g, 2)
+			la.Report(func(kind string) string { return "C12.shared-maps" })
+			c.Check(la.Accesses >= 9, "C12.shared-maps", "subscribe", "guarded accesses analysed", "", fmt.Sprintf("%d accesses of the statistics maps, %d directly under stats.mu", la.Accesses, la.Guarded))
+		}
+	}
 	// ---- reject intact
 	a := resolveCache(c, "C12.reject-intact")
 	if a.ok {
